@@ -1,5 +1,8 @@
+(* private extraction used while developing the federation slice (C16/C17): the list of
+   Extract.v plus the federation models and oracles *)
 From Coq Require Import Extraction ExtrOcamlBasic.
-From GM Require Import Base.Topic Model.WsConn Model.SubTrie Model.SubSpec Model.TopicMatch Base.Msg Model.RetTrie Oracle.C18O Oracle.C02O Oracle.C07O Model.Queue Oracle.C10O Model.Limiter Oracle.C03O Model.Broker.
+From GM Require Import Base.Topic Model.WsConn Model.SubTrie Model.SubSpec Model.TopicMatch Base.Msg Model.RetTrie Oracle.C18O Oracle.C02O Oracle.C07O Model.Queue Oracle.C10O Model.Limiter Oracle.C03O.
+From GM Require Import Model.FedQueue Oracle.C16O.
 Extraction Language OCaml.
 Set Extraction KeepSingleton.
 Extraction "model.ml"
@@ -10,5 +13,7 @@ Extraction "model.ml"
   RetTrie.rdb_run RetTrie.rspec_run RetTrie.retain_op C07O.rmodel_answer C07O.c07_store_ok C07O.mmeq Msg.msg_total_bytes
   C10O.c10_ok C10O.model_outs C10O.oout_of
   C03O.c03_lim_ok C03O.lim_model C03O.alias_ok C03O.am_run Limiter.am_new C03O.unack_run C03O.unack_ok
-  Broker.st_init Broker.step Broker.run Broker.no_hooks
-  TopicMatch.valid_name_spec TopicMatch.valid_filter_spec Topic.topic_match.
+  TopicMatch.valid_name_spec TopicMatch.valid_filter_spec Topic.topic_match
+  FedQueue.fq_init FedQueue.fq_step FedQueue.view_of FedQueue.local_of FedQueue.fq_idle FedQueue.msg_event_form
+  RetTrie.rdb_all
+  C16O.c16_ok C16O.c16_safety_ok C16O.fq_model_obs C16O.kf_hello_reply_lost C16O.kf_event_not_utf8.
